@@ -423,6 +423,87 @@ func runC16(p *core.Prog, r *core.Report, tier string) {
 	nL := checkNestedMapWrites(p, r, ds, "C16.l", p.SrcFuncs())
 	r.Floor("C16.l nested map inserts", nL, 3)
 
+	// ---- (n) a number taken from a decoded document indexes another collection only behind a range test: in a
+	// function that json-decodes into a local, an index expression derived from that local and applied to a
+	// collection that is not part of it is guarded by `index < len(collection)` ----
+	nTaint, nTaintIdx := 0, 0
+	for _, f := range p.SrcFuncs() {
+		var decoded []*ssa.Alloc
+		for _, ci := range core.Calls(f, func(c *ssa.CallCommon) bool {
+			n := core.CalleeName(c)
+			return strings.HasSuffix(n, "encoding/json.Unmarshal") || strings.HasSuffix(n, "encoding/json.Decoder.Decode")
+		}) {
+			args := ci.Common().Args
+			last := args[len(args)-1]
+			if mi, ok := last.(*ssa.MakeInterface); ok {
+				if a, ok := mi.X.(*ssa.Alloc); ok {
+					decoded = append(decoded, a)
+				}
+			}
+		}
+		if len(decoded) == 0 {
+			continue
+		}
+		nTaint++
+		fromDecoded := func(v ssa.Value) bool {
+			d := ds.D(v)
+			return d.Any(func(x *core.VD) bool {
+				for _, a := range decoded {
+					if x.Val == ssa.Value(a) {
+						return true
+					}
+				}
+				return false
+			})
+		}
+		core.EachInstr(f, func(in ssa.Instruction) {
+			ia, ok := in.(*ssa.IndexAddr)
+			if !ok {
+				return
+			}
+			if _, isConst := ia.Index.(*ssa.Const); isConst {
+				return
+			}
+			if !fromDecoded(ia.Index) || fromDecoded(ia.X) {
+				return
+			}
+			nTaintIdx++
+			idxS := ds.D(ia.Index).String()
+			collS := ds.D(ia.X).String()
+			w := core.Unguarded(ds, f, nil, func(x ssa.Instruction) bool { return x == in }, func(c core.Cond) int {
+				if c.Op == "" {
+					return -1
+				}
+				for _, side := range [][2]*core.VD{{c.X, c.Y}, {c.Y, c.X}} {
+					if side[0].String() != idxS || side[1].Kind != "len" || side[1].Args[0].String() != collS {
+						continue
+					}
+					for e := 0; e < 2; e++ {
+						rel := c.RelOnEdge(e)
+						if side[0] == c.Y {
+							rel = core.FlipRel(rel)
+						}
+						if rel == "<" {
+							return e
+						}
+					}
+				}
+				return -1
+			})
+			r.Check(w == nil, "C16.n", fmt.Sprintf("%s|decoded-index#%d", core.FnKey(f), nTaintIdx), p.Pos(ia.Pos()), "an index taken from a decoded document is range-tested before use",
+				"the index "+idxS+" comes from a decoded (JSON) document and is applied to "+collS+" without `index < len(...)` having been established: an out-of-range (or negative) value from the other side panics with index out of range", p.WitnessText(w)...)
+		})
+	}
+	r.Count("functions decoding JSON into a local", nTaint)
+	r.Floor("C16.n functions decoding JSON into a local", nTaint, 5)
+	if nTaintIdx == 0 {
+		r.Hold("C16.n", "no-decoded-index", "", "no index expression derived from a decoded document is applied to a foreign collection")
+	}
+
+	// ---- (o) the bids a relay's worker remembers between rounds are verified ones (the range report divides by the
+	// first remembered bid's value, which verification guarantees to be non-zero): shared with C09.a ----
+	checkVerifiedStateOnly(p, r, ds, "C16.o", "deadline", p.FuncsIn("strategies/builderbid/deadline"), "a bid that failed (or skipped) verification — for instance a zero-value bid — is remembered as the relay's first bid, and the report of the relay's bid range divides by its value: division by zero in the relay's goroutine")
+
 	// ---- (m) a helper of the program that can return nil without an error obliges its callers to test the result ----
 	nM := 0
 	for _, f := range p.SrcFuncs() {
